@@ -260,7 +260,7 @@ def module_case(draw):
         strike = float(min(max(math.exp(-s0), 0.11), 10.0))
     return {"ul": ul, "type": typ, "call": call, "strike": strike, "default_init": default_init, "s0": s0,
             "v0": draw(fl(0.005, 0.5)), "steps": draw(st.integers(1, 8)), "n_paths": draw(st.integers(1, 4)),
-            "seed": draw(seed_s),
+            "seed": draw(seed_s), "frac": draw(st.sampled_from([0.0, 0.0, 0.5, 0.9])),
             "picks": draw(st.lists(st.tuples(st.integers(0, 999), st.integers(0, 999)), min_size=1, max_size=3))}
 
 
@@ -272,7 +272,7 @@ def check_module(case, ctx):
     typ, call, K = case["type"], case["call"], case["strike"]
     kind = KIND_OF[typ]
     ul = build_primary(case["ul"])
-    deriv = getattr(I, typ)(ul, call=call, strike=K, maturity=case["steps"] * ul.dt)
+    deriv = getattr(I, typ)(ul, call=call, strike=K, maturity=(case["steps"] - case.get("frac", 0.0)) * ul.dt)  # also maturities between two grid points
     bs_cls = getattr(nn, "BS" + typ)
     ctx.cls("deriv:" + typ, "ul:" + case["ul"]["type"], "cp:" + ("call" if call else "put"))
 
